@@ -291,8 +291,8 @@ def _iter_glob_expanded_file_patterns(
                 yield os.path.normpath(str(filepath)), raw_patterns
         else:
             logger.warning(f"Invalid config, no such file: {filepath_glob}")
-            # fallback to treating it as a simple path
-            yield filepath_glob, raw_patterns
+            # fallback to treating it as a simple path (e.g. "./pages/[id].tsx")
+            yield os.path.normpath(filepath_glob), raw_patterns
 
 
 def _as_pattern_list(raw_patterns: typ.Union[str, typ.List[str]]) -> typ.List[str]:
